@@ -742,6 +742,12 @@ func (s *SecureChannel) handleOpenSecureChannelRequest(reqID uint32, svc ua.Requ
 		debug.Printf("Expected OpenSecureChannel Request, got %T\n", svc)
 	}
 
+	// only a server channel answers OpenSecureChannel requests. A client
+	// channel that is sent one has no opening instance to answer with.
+	if s.kind != server || s.openingInstance == nil {
+		return errors.Errorf("sechan: unexpected OpenSecureChannelRequest")
+	}
+
 	// Part 6.7.4: https://reference.opcfoundation.org/Core/Part6/v105/docs/6.7.4
 	// todo(fs): check that ClientProtocolVersion matches HELLO.Version
 	// todo(fs): respond with Bad_ProtocolVersionUnsupported if they don't match
